@@ -311,8 +311,9 @@ MUTANTS = [
     M("d06", "idc", IDC, "        for outcome in new_event_keys:\n            remaining_outcomes[outcome] = new_event[outcome]\n        return remaining_outcomes, remaining_conditions\n    elif len(missing_conditions) > 0:\n",
       "        for outcome in new_event_keys:\n            remaining_conditions[outcome] = new_event[outcome]\n        return remaining_outcomes, remaining_conditions\n    elif len(missing_conditions) > 0:\n", ["C08"],
       "wrong dict: a renamed OUTCOME is filed under the conditions (outcomes may become empty: rule 2 then 'applies' vacuously and conditions are dropped)"),
-    M("d07", "idc", IDC, "        set(new_event) - set(outcomes) - set(conditions), key=_variable_sort_key\n", "        set(new_event) - set(outcomes), key=_variable_sort_key\n", OUT,
-      "dropped operand: when an outcome was renamed, the surviving CONDITIONS are also filed under the outcomes: rule 2 is then tested between a "
+    M("d07", "idc", IDC, "        set(new_event) - set(outcomes) - set(conditions), key=_variable_sort_key\n", "        set(new_event) - set(outcomes), key=_variable_sort_key\n", ["C08"],
+      "REVISED after the re-measurement (first guess: outside the property): the change only prevents exchanges, but the un-exchanged quotient is then evaluated by ID*, "
+      "which is wrong on it (F10) on inputs where the exchanged answer of the unchanged code is right: the mutant's answer violates C08 there. dropped operand: when an outcome was renamed, the surviving CONDITIONS are also filed under the outcomes: rule 2 is then tested between a "
       "condition and itself and fails: fewer exchanges; the final quotient joint / conditions is unchanged"),
     M("d08", "idc", IDC, "        if cf_rule_2_of_do_calculus_applies(cf_graph, new_outcomes, condition):\n", "        if cf_rule_2_of_do_calculus_applies(cf_graph, outcomes, condition):\n", ["C08"],
       "stale variable: rule 2 is tested for the ORIGINAL outcomes, which are no nodes of the counterfactual graph once renamed (KeyError from are_d_separated)"),
@@ -338,14 +339,14 @@ MUTANTS = [
       "negated filter: rule 2 is tested given every ordinary node instead of given the intervened ones: colliders open, chains close"),
     M("d18", "idc", IDC, "    graph_mod = cf_graph.remove_out_edges(condition)\n", "    graph_mod = cf_graph.remove_in_edges(condition)\n", ["C08"],
       "wrong surgery: edges INTO the condition are cut: an effect Z of the outcome (Y -> Z) passes rule 2 and is dropped: P(y) for P(y | z)"),
-    M("d19", "idc", IDC, "    graph_mod = cf_graph.remove_out_edges(condition)\n", "    graph_mod = cf_graph\n", OUT,
-      "no surgery: a condition with a causal path to an outcome never passes: fewer exchanges, the quotient is returned instead"),
+    M("d19", "idc", IDC, "    graph_mod = cf_graph.remove_out_edges(condition)\n", "    graph_mod = cf_graph\n", ["C08"],
+      "REVISED as d07 (fewer exchanges; the quotient ID* then computes is wrong on inputs where the unchanged code answers correctly, e.g. Zero for a possible joint event). no surgery: a condition with a causal path to an outcome never passes: fewer exchanges, the quotient is returned instead"),
     M("d20", "idc", IDC, "    return all(\n        are_d_separated(", "    return any(\n        are_d_separated(", ["C08"],
       "all -> any: one separated outcome is enough: needs two outcomes, one of them confounded with the condition"),
     M("d21", "idc", IDC, "conditions=conditions - {outcome, condition})\n", "conditions=conditions)\n", ["C08"],
       "dropped subtraction: a self-intervened outcome / condition is part of the conditioning set of its own separation test"),
-    M("d22", "idc", IDC, "        are_d_separated(graph_mod, outcome, condition, conditions=conditions - {outcome, condition})\n", "        are_d_separated(graph_mod, outcome, condition)\n", OUT,
-      "dropped argument: not conditioning on the intervened (parentless, constant) nodes leaves forks through them open: fewer exchanges"),
+    M("d22", "idc", IDC, "        are_d_separated(graph_mod, outcome, condition, conditions=conditions - {outcome, condition})\n", "        are_d_separated(graph_mod, outcome, condition)\n", ["C08"],
+      "REVISED as d07 (fewer exchanges, the quotient is wrong through F10 where the unchanged code is right). dropped argument: not conditioning on the intervened (parentless, constant) nodes leaves forks through them open: fewer exchanges"),
     M("d23", "idc", IDC, "            new_conditions = {k: v for k, v in new_conditions.items() if k != condition}\n", "            new_conditions = {k: v for k, v in new_conditions.items() if k.get_base() != condition.get_base()}\n", ["C08"],
       "base instead of node: exchanging Z also drops every other condition on a copy of Z (Z_x): needs two conditions on copies of one variable"),
 ]
@@ -357,9 +358,9 @@ FIXES = """## What the campaign found and changed
 that starts each `why`): dropped operand / condition / filter / guard / argument 32; wrong graph / dict / argument / endpoint / surgery / constant 18; lost
 polarity, negated comparison, `==` vs `is` 10; stale variable 9; dropped statement / early return / dropped raise 7; and <-> or, all -> any 6; off by one /
 needs size 6; iteration order, truthiness, caller's argument, orientation 6; wrong closure / direction / order / set operation 5; swapped arguments / operands /
-return values / representative 4; reverted fixes 3; dead code 2.  By effect: 72 break a property they were run on, 36 are equivalent or outside the property.
-`expect` was fixed before the run; five first guesses were revised after analysis of round 1 (c40, c57,
-i19, i20, d10: the `why` column has the argument).  A run that hits the tool's 900 s limit is listed as `timeout`.
+return values / representative 4; reverted fixes 3; dead code 2.  By effect (final classification): 75 break a property they were run on, 33 are equivalent or outside the property.
+`expect` was fixed before the run; nine first guesses were revised after analysis (c40, c57, i19, i20, d10 after round 1; c38, d07, d19, d22 after the
+second measurement: the `why` column has the argument).  A run that hits the tool's 900 s limit is listed as `timeout`.
 
 ### C18 (module owned by this campaign: strengthened)
 
@@ -378,8 +379,8 @@ i19, i20, d10: the `why` column has the argument).  A run that hits the tool's 9
   which holds only after it was merged into the factual node), `both_observed_case` (120: both copies of a parent observed, equal / different values).
   No oracle clause had to be added: every mutant whose shape was generated was reported by the existing clauses (probability of the relabelled event on 8
   functional SCMs, 'inconsistent' => probability 0, structure, `check_parents_represented`, crash on an in-domain input).
-* **Round 2**: c44 caught with a replay (29 failing inputs: `relabelled event ... has another probability than the event: want 0`); c58 1 -> 48 failing inputs,
-  c09 / c10 8 -> 60, c45 10 -> 165, c11 46 -> 96, c18 48 -> 116.  The eight not-breaking mutants that were re-run stay silent or `correspondence only`.  Unchanged tree:
+* **Round 2** (and, in brackets, the final stream with the reviewer's additions below): c44 caught with a replay, 29 [22] failing inputs (`relabelled event ... has another
+  probability than the event: want 0`); c58 1 -> 48 [52] failing inputs, c09 / c10 8 -> 60 [57], c45 10 -> 165 [160], c46 8 -> 8 [12], c11 46 -> 96, c18 48 -> 116 [127].  The eight not-breaking mutants that were re-run stay silent or `correspondence only`.  Unchanged tree:
   quick seeds 0, 1, 2 and the thorough tier (16 118 cases) exit 0 without a VIOLATION line and without a disagreement (the Lean model agrees on the new shapes).
 * **seeded/C18b**: measured on a scratch clone (tools/run_seeded.py creates a worktree of /repo, which this builder may not touch): caught with CONCRETE
   replays, 116 failing inputs in the plain quick tier, 442 escalated (`node Y@{x}: the parent X of Y in the causal diagram is represented by 0 parent nodes
@@ -392,53 +393,47 @@ i19, i20, d10: the `why` column has the argument).  A run that hits the tool's 9
   are `correspondence only` for C18 and caught with a replay by C07).  Fewer merges than Lemma 24 allows, another representative, the caller's dict (c37, silent)
   are not decided by any clause either.
 
-### C07 (measured only: `harness/props/c07.py` belongs to builder cf5)
+### C07 and C08 (measured only: `harness/props/c07.py` / `c08.py` belong to builder cf5) -- measured TWICE
 
-24 breaking mutants were run on C07 (19 of id_star.py, 5 of cg.py).  21 caught with a replay in round 1; **3 timeouts** (c22, i08, i18); none silently missed after
-the two reclassifications below.
+Round 1 used the modules of e0ce07f; after `git merge main` (cf5's 2c6d683: a listed finding is attributed only when the MODEL OF THE UNCHANGED CODE gives the same
+wrong answer; `samebase` generator; y0 fix a971450 modelled, fast-forwarded into /work/mutC/repo) every C07 / C08 run was repeated.  The "After" table is the second measurement.
 
-* **c22, i08, i18 (timeout > 900 s)**: all three make id_star recurse without end on some inputs (line 6 re-creates the same district event).  Every such input
-  costs a full Python recursion-limit unwind per iteration order, and the shrinker repeats it.  Re-run with a 2 700 s limit, i08 IS caught: 5 VIOLATION lines
-  with replays (`value/line6/none`, `crash:RecursionError`, `IN-FRAGMENT` keys), 201 failing inputs, 1 120 s wall under load.  All three are killed by the pinned
-  suite.  *Proposed*: run the real call under `sys.setrecursionlimit(250)` in `_run_real` (the model's fuel bound 2|V| + |event| + 4 is far below), so a
-  non-terminating change fails fast; cap the shrinking of `crash:RecursionError` inputs.
-* **i19 (correspondence only), i20 (silent)** were expected to break C07 and do not on the current tree: they change the POLARITY OF A DISTRICT VALUE, which an
-  estimand of y0 cannot show (variables, not values) and which line 6 of the recursive call un-stars anyway (F10/M1).  i19 changes 5 of 2 028 inputs (estimand
-  -> Zero); on all 5 the unchanged id_star is already wrong (listed classes value/line6/M2, M3a): wrong -> wrong.  What this shows about the check: the finding
-  key of a located failure names the defect PATTERN PRESENT IN THE INPUT at the blamed step (`_local_class`: M1, M2, M3a ...), not the deviation that actually
-  occurred, so a second defect that only shows on inputs carrying a listed pattern moves failing inputs between listed classes (here value -> zero, both listed) and
-  is reported as `no-failing-input-found`.  *Proposed*: derive the district events of the blamed line-6 step independently from the paper (value of the event, else
-  the summation symbol; subscripts = pillow with the event's / self-intervention's value and polarity) and key the finding by the observed DIFFERENCE to what the
-  real `get_events_of_district` returned (`subscript-unstarred`, `copy-overwritten`, ...); a difference that is none of the listed ones (`value-of-summed-node-starred`
-  for i19) is then unlisted and becomes a VIOLATION with the input as replay.  Once F10 is repaired both mutants break C07 on ordinary inputs.
+* **Round 1, C08**: d05, d06 (a renamed key filed under the wrong side by get_new_outcomes_and_conditions) were `correspondence only`: 72 resp. 82 NEW failing inputs, every one
+  keyed `["reassociation"]`, the single coarse key of the known re-association defect (10 -> 98 / 126 inputs): masked by the finding key.  d23 (exchanging Z also drops conditions
+  on other copies of Z; survives the pinned suite): ONE disagreement in 1 214 cases, on an input already failing in the listed class `exchange:separation`: the shape (two copies
+  of one variable among the conditions) was not generated, and every failure of an exchange level with >= 2 conditions was listed.  My proposals were (i) key a re-association
+  failure by what the step did (`merged-into-other-side` listed, `new-key-misfiled` never), (ii) a stream with conditions Z and Z_x, (iii) compare the arguments of the recursive call
+  with the canonical result of the exchange.  **cf5's change does this more generally** (compare with the model's answer) and adds the stream: second measurement: d05 (326 failing
+  inputs), d06 (316), d23 (13 disagreements, replay `estimand P[V0', V2'](V1) differs`) are all caught with a replay: 21 of 21 breaking mutants of idc_star.py (final classification, see next item).
+* d07, d19, d22 were classified `outside-property` (they only prevent exchanges).  The second measurement reports each with a replay, and rightly so: the un-exchanged quotient is
+  handed to ID*, which is wrong on it (F10) on inputs where the exchanged answer of the unchanged code is right (`Zero returned although the joint event has positive probability`).
+  Reclassified as breaking; in round 1 their 14 / 31 / 2 additional failing inputs were all attributed to `inherited` listed findings, i.e. they were masked as well.
+* **C07**: round 1: 21 of 24 breaking mutants caught with a replay, 3 timeouts (c22, i08, i18); second measurement: 23 of 25 (c38 added), i18 now finishes (599 s) and is caught,
+  **c22 and i08 hit the tool's 900 s limit again**: the three make id_star recurse
+  without end on some inputs, every such input costs a recursion-limit unwind per iteration order, and the shrinker repeats it.  With a 2 700 s limit i08 IS caught (5 VIOLATION lines,
+  keys `value/line6/none`, `crash:RecursionError`, `IN-FRAGMENT`; 201 failing inputs; 1 120 s at load 80).  All three are killed by the pinned suite.  *Proposed to cf5*: run the real
+  call under `sys.setrecursionlimit(250)` in `_run_real` (the model's fuel bound 2|V| + |event| + 4 is far below) and do not shrink `crash:RecursionError` inputs.
+* **i19, i20** were expected to break C07 and do not on the current tree: they change the POLARITY OF A DISTRICT VALUE, which an estimand of y0 cannot show (variables, not values)
+  and which line 6 of the recursive call un-stars anyway (F10/M1).  i19 changes 5 of 2 028 inputs (estimand -> Zero); on all 5 the unchanged id_star is already wrong (listed classes
+  value/line6/M2, M3a): wrong -> wrong.  Round 1 reported it as `no-failing-input-found` (the key named the defect pattern PRESENT IN THE INPUT, so the inputs just moved between two
+  listed classes); the second measurement reports it with a replay (`Zero returned for an event of positive probability`), because the model of the unchanged code gives another wrong
+  answer there -- the behaviour I proposed to key on.  i20 stays silent in both (no generated input distinguishes it from the model); once F10 is repaired both break C07 everywhere.
+* **c38 = seeded/C07c** (found independently; the reviewer's seed): for C18 it is outside the property (fewer merges, `correspondence only`); on C07 see the table (run only in the second
+  measurement).  c32, c51, c54, c55 (bidirected edges of the counterfactual graph) are caught with a replay by C07 in both measurements.
 
-### C08 (measured only: `harness/props/c08.py` belongs to builder cf5)
+### Reviewer's list (notes/gap_review_round5.md item 4 / C18 section), done in `harness/props/c18.py`
 
-18 breaking mutants of idc_star.py: 15 caught with a replay (d10 among them, which I had expected to be harmless), **3 `correspondence only`** (d05, d06, d23).
-
-* **d05, d06** (get_new_outcomes_and_conditions files a renamed key under the wrong side): 72 resp. 82 NEW failing inputs, every one keyed `["reassociation"]`,
-  the single coarse key of the known re-association defect (10 inputs on the unchanged tree, 98 / 126 with the mutants).  The pinned suite kills both
-  (test_get_new_outcomes_and_conditions), so they are not interesting as survivors, but the masking is real.  *Proposed*: split the key by what the step did
-  wrong, decided on the input: the listed defect is "a key of one side was merged into a variable that is ALREADY a key of the other side and disappears"
-  (no new key is filed); add to the key whether some missing key's representative in the relabelled event was an original key of the other side
-  (`reassociation:merged-into-other-side`, listed) and otherwise use `reassociation:new-key-misfiled` (never listed); the representative map is available from
-  the `make_counterfactual_graph` call that `_chain` already records, or semantically (same base, equal on the joint event in the sampled SCMs).
-* **d23** (exchanging Z also drops the conditions on other copies of Z; survives the pinned suite): ONE disagreement in 1 214 cases and no new failing input; on that
-  input (1 -> 0, P(V1 | V0_{1',2}, V0)) the unchanged code is already wrong in the listed class `exchange:separation`.  Two causes: (i) the generator almost never
-  puts two copies of one variable among the conditions together with an outcome to which rule 2 applies (*proposed*: a structured stream X -> Z -> Y [X <-> Y
-  optional], conditions Z and Z_x with equal / different values, outcome Y or Y_x; plus a third condition that is a collider); (ii) the change acts at an exchange
-  level with >= 2 conditions, and EVERY failure of such a level is listed (`exchange:conditions`, `exchange:separation`).  *Proposed*: before blaming the exchange,
-  compare the arguments of the recursive call with the canonical result of the step (`new_outcomes` with the subscript, `new_conditions` minus exactly the
-  exchanged key); a difference is the unlisted kind `exchange:arguments`.  I found no input on which d23 is wrong and the unchanged code right (whenever rule 2
-  as coded applies to Z, the outcomes are separated from every copy of Z except through Z's own out-edges, so the dropped condition is irrelevant unless another
-  condition opens a path -- the listed defect); it is kept as `breaking (unconfirmed)`.
-* d07, d19, d22 (`outside-property`: fewer exchanges) raise the number of failing inputs by 14 / 31 / 2: all `inherited` F10 failures of the un-exchanged quotient,
-  listed.
+three used worlds 17 -> 298 cases per quick run (`three_world_event`: 8 % of the random stream, one conjunct per world first; plus `world_family_case`); twin events (two worlds sharing
+2-3 base variables: `twin_event`, 8 %); the counterfactual-counterfactual loop with DIFFERING parents (`world_family_case`, `mirrored_parent_case`, `both_observed_case`: Lemma 24 between
+two counterfactual copies succeeds in about half of their 390 cases; 'inconsistent' out of that loop in ~150); nodes with >= 2 (now up to 3) parents still distinct at merge time with
+mixed observed / unobserved parents (`shared_parent_case` got a third intervened parent; seeded/C18c = mutant c18: 48 -> 127 failing inputs); graphs stored in non-topological insertion
+order (30 % of the random graphs are shuffled, all structured graphs were already; seeded/C07c = c38); edge-less random graphs are re-drawn (35 % -> 17 % of the cases have no edge);
+thorough tier: 400 six-node graphs, binary variables, up to 5 conjuncts.  Seeds 0, 1, 2 of the plain quick tier on the unchanged tree: exit 0, no VIOLATION, no disagreement (3 242 cases).
 
 ### Pinned suite (tools/baseline.py, 387 tests) on 36 mutants
 
 Kills 26, lets 10 pass: **c44** (the round-1 miss), c45, c58, c11, c18, c46 (ce3041e reverted: the repair has no test in the pinned suite), i20, d09 (8a76512 reverted),
-d20, d23.  All of these except i20 (equivalent on the current tree) and d23 (above) are caught with a replay.
+d20, d23.  All of these except i20 (equivalent on the current tree) are caught with a replay in the final measurement.
 
 No mutant revealed a new defect of the unchanged y0; two observations on incompleteness (not violations of C18): `nodes_attain_same_value` never accepts an observed
 counterfactual copy against an intervened one unless the observed copy lost all its bidirected edges by merging into the factual node, and C18's statement leaves
@@ -636,7 +631,7 @@ def write_md(path, results, before=None, suite=None):
 
     if before:
         table(f"Round 1: before the C18 changes of this campaign ({len(before)} mutants, final classification)", summarise(before))
-        table(f"After the C18 changes ({len(results)} mutants; C07 / C08 are measured only, their modules belong to another builder)", summarise(results))
+        table(f"After ({len(results)} mutants): C18 with the changes of this campaign; C07 / C08 measured a second time against cf5's modules merged from main (not edited here)", summarise(results))
     else:
         table("Result", summarise(results))
     lines += FIXES
@@ -648,7 +643,7 @@ def write_md(path, results, before=None, suite=None):
     for rec, run in fixed:
         lines.append(f"| {rec['id']} | {run['prop']} | {bmap0[(rec['id'], run['prop'])]} | caught with replay ({run['oracle_failures']} failing inputs) | {rec['why']} | "
                      f"{(run['says'] or '').replace('|', '/')[:200]} |")
-    still = [(rec, run) for rec in results for run in rec.get("runs", []) if classify(rec, run) in ("MISSED", "correspondence only")
+    still = [(rec, run) for rec in results for run in rec.get("runs", []) if classify(rec, run) in ("MISSED", "correspondence only", "timeout")
              and isinstance(rec["expect"], list) and run["prop"] in rec["expect"]]
     lines += ["", f"Property-breaking mutants still not caught with a replay after the fixes: {len(still)}"
               + ("" if not still else " -- " + ", ".join(f"{r['id']}/{u['prop']}" for r, u in still)), ""]
